@@ -33,17 +33,17 @@ CLAIMS = {
          "Decides that no module-level state other than two confirmed value-neutral instances is touched on the solve path, that every memo is completely keyed, that thread count and precision cannot change the computed normal forms, and that arguments are not mutated; bit-identity and rounding-level agreement are runtime clauses and are not decided."),
  "C13": ("access-path wiring table: run_bldfm_single interpreted abstractly over its option space with recording stubs; sibling tables for the parsers", "3 C13",
          "Decides that every formal of every pipeline stage receives the documented configuration path in all 72 option combinations, that the result carries the step/tower labels, that parsers and dataclasses agree on keys and defaults and that YAML and dict parsing coincide."),
- "C14": ("drivers interpreted abstractly with generated-list semantics and the Executor.map ordering contract; worker reset discipline", "3 C14",
+ "C14": ("drivers interpreted abstractly with generated-list semantics and the Executor.map ordering contract; worker reset discipline; loop-carried mapping and memo-key dependence rules", "3 C14",
          "Decides that serial and parallel drivers return exactly the per-tower, time-ordered single runs for every strategy, with positional re-assembly at task boundaries and worker thread/FFT reset; real completion orders are covered by the map contract (trusted)."),
- "C15": ("cache-key completeness by dependence on the abstractly interpreted footprint solver; same reaching value at lookup and store; handler discipline; put/get composition", "3 C15",
-         "Decides transparency (miss == no cache), key completeness for every result-shaping input, effectiveness (same key at get and put, default halo), corrupt-entry-as-miss for every truncation point, and field-for-field round trip; hash collisions are trusted."),
+ "C15": ("cache-key completeness by dependence on the abstractly interpreted footprint solver; put/get interpreted with a recording hash object, recording savez and fault-injecting load (same file at lookup and store, every key element hashed, every read failure a miss, no retained references)", "3 C15",
+         "Decides transparency (miss == no cache), key completeness for every result-shaping input element, effectiveness (same key at get and put, default halo), corrupt-entry-as-miss for every exception class a damaged file can raise at load or member access, field-for-field round trip and freshness of hits; hash collisions are trusted."),
  "C16": ("abstract interpretation of MetConfig over all 2^4 list/scalar patterns with symbolic lengths; path rule on validate()", "3 C16",
          "Decides step count, per-step extraction and the rejection rules exhaustively over the pattern space and for all lengths at once."),
  "C17": ("composition of the two geolocation transforms' normal forms is the identity; signs of symbolic derivatives", "3 C17",
          "Decides mutual inverses, orientation and origin for all inputs; the 0.1 %/0.1 degree accuracy of the equirectangular map is mathematical and not decided."),
  "C18": ("positional agreement of allocation/dims/stores by abstract interpretation with recording stubs; label provenance; lossless-encoding table", "3 C18",
          "Decides that every field, label and per-step value lands in its own slot for a results order that differs from the configuration order, in 2-D/3-D and both forcings, and that nothing lossy is requested from the NetCDF layer; the library's own bit fidelity is trusted."),
- "C19": ("closed-form equality with symbolic exponents under a bijective reparametrisation of the inputs; helper formulas; dtype flow", "3 C19",
+ "C19": ("closed-form equality with symbolic exponents under a bijective reparametrisation of the inputs; helper formulas; dtype flow; polyhedral case analysis (exact Fourier-Motzkin) of the sector-window conditions of estimateZ0", "3 C19",
          "Decides that upwind cells hold exactly the published f*D_y*area for all inputs (with and without rotation), that other cells are zero, evenness in y, the stability helpers, the z0 inversion and int/float indifference; the incomplete-gamma mass limit is not decided."),
  "C20": ("order-only information flow and recognised sort/prefix patterns as structured atoms; dtype flow; homogeneity", "3 C20",
          "Decides descending order by the right key, exclusive prefix, same permutation for gather and scatter, g used only as a key, result not typed by g, and the count/level/area formulas of the contour; tie/minimality/monotonicity clauses of the algorithm are not decided."),
